@@ -35,7 +35,7 @@ func exported(name string) bool {
 }
 
 func genMutatorCalls() string {
-	rows, valueNames := fwAnalyse("types", "")
+	rows, valueNames, _ := fwAnalyse("types", "")
 	// methods (Type.method) that assign their receiver's fields
 	mut := map[string]bool{}
 	for _, r := range rows {
